@@ -96,7 +96,7 @@ PROJ = {
     'C24': dict(frames=['ALTSVC'], events=['AlternativeServiceAvailable'], enc=False, st=[2], res=True),
     'C25': ALL,
     'C26': dict(frames=['PING'], events=['PingReceived', 'PingAckReceived'], enc=False, st=[2], res=True),
-    'C27': dict(frames=['GOAWAY', 'RST_STREAM'], events=[], enc=False, st=[0, 1, 2, 10], res=True),
+    'C27': dict(frames=['GOAWAY', 'RST_STREAM'], events=[], enc=False, st=[0, 1, 2, 10, 11], res=True),
     'C28': ALL,
     'C29': dict(frames='len', events=[], enc=False, st=[2], res=True),
 }
